@@ -1,9 +1,9 @@
 (** Dispatcher used by generated case files. *)
 From VG Require Export Corr.Base.
-From VG Require Import Corr.CorrTimeout Corr.CorrLeaf Corr.CorrRouter Corr.CorrReader.
+From VG Require Import Corr.CorrTimeout Corr.CorrLeaf Corr.CorrRouter Corr.CorrReader Corr.CorrServe.
 Open Scope Z_scope.
 
-Definition runners : list runner := [run_timeout; run_leaf; run_router; run_reader].
+Definition runners : list runner := [run_timeout; run_leaf; run_router; run_reader; run_serve].
 Definition monitors : list monitor_t := [mon_timeout; mon_leaf; mon_router].
 
 Definition run (suite : bytes) (i : V) : option V := first_some (map (fun r => r suite i) runners).
@@ -13,7 +13,7 @@ Definition monitor (suite : bytes) (i o : V) : option bool := first_some (map (f
     monitor fails on the implementation's observation, 4 = neither model nor monitor known. *)
 Definition check1 (c : bytes * V * V) : Z :=
   let '(suite, i, o) := c in
-  let m := match run suite i with Some v => if V_eqb v o then 0 else 1 | None => 0 end in
+  let m := match run suite i with Some v => if V_match v o then 0 else 1 | None => 0 end in
   let p := match monitor suite i o with Some true => 0 | Some false => 2 | None => 0 end in
   match run suite i, monitor suite i o with
   | None, None => 4
